@@ -302,6 +302,16 @@ pub fn check_unsafe(c: &UnsafeCase, acc: &mut Acc, record: bool) -> Verdict {
             acc.sample(&class, json!({"type": c.ty.render(), "fault": applied.kinds, "input_hex": hex(&bytes[..bytes.len().min(48)]), "desert": format!("{:?}", real.as_ref().map(|v| v.brief()).map_err(|e| e.kind.clone())), "reference": format!("{:?}", reference.as_ref().map(|(v, _)| v.brief()))}));
         }
     }
+    // every value produced by decoding is built from initialised data taken from the input: decoding again with the
+    // allocator handing out memory pre-filled with another byte must give the same value
+    if let Ok(v) = &real {
+        let a = crate::alloc::with_poison(0x53, || crate::run::guarded(|| vcat::decode(&c.ty, &bytes)));
+        let b = crate::alloc::with_poison(0xAC, || crate::run::guarded(|| vcat::decode(&c.ty, &bytes)));
+        let same = |x: &Result<Result<Val, vmodel::ErrInfo>, String>| matches!(x, Ok(Ok(w)) if canon(&c.ty, w) == canon(&c.ty, v));
+        if !same(&a) || !same(&b) {
+            return Verdict::Fail(format!("decoding {} as {} depends on what fresh heap memory contains: {} / {:?} / {:?} — uninitialised memory reaches the result", hex(&bytes), c.ty.render(), v.brief(), a.map(|r| r.map(|w| w.brief())), b.map(|r| r.map(|w| w.brief()))));
+        }
+    }
     match (real, reference) {
         (Ok(v), Ok((rv, _))) if canon(&c.ty, &v) == canon(&c.ty, &rv) => Verdict::Pass,
         (Ok(v), r) => Verdict::Fail(format!("decoding {} as {} returned {} — content the input does not denote (the reference decoder says {:?})", hex(&bytes), c.ty.render(), v.brief(), r.map(|(x, _)| x.brief()))),
@@ -408,7 +418,7 @@ pub fn run_c19(cx: &Cx) -> PropResult {
     let mut r = PropResult::new(
         acc,
         "exploration",
-        "(1) client programs: witnesses from a template grammar — API path (State::store_ref -> get_ref_by_id, SerializationContext::store_ref_or_object -> get_ref_by_id, store_ref -> DeserializationContext::try_read_ref, read_bytes on SliceInput / OwnedInput / DeserializationContext, a table reference outliving its context) x how the referent dies (inner scope ends, drop, moved into a callee, Vec reallocation / second mutable use) x referent type (String, Vec<u8>, Box<u64>, Rc<String>) — each a crate root with #![forbid(unsafe_code)] compiled by rustc against the freshly built desert rlib; every witness has a control twin that keeps the referent alive and must compile. Oracle: the witness is rejected with a borrow/lifetime error; a witness that compiles refutes the property. (2) inputs to the decoding paths written with unsafe code ([T; N] for T in u8, u32, String, Vec<u16>, Option<Box<u64>>, i8, bool, () and N in 0, 1, 3, 16, 17, 33; Vec<u8> / Vec<T>; Bytes; BigInt): valid, count-mismatched, truncated and tampered encodings; every Ok must equal the reference decoder's value (content that does not come from the input is caught without a sanitizer); the thorough tier repeats this corpus under AddressSanitizer (libFuzzer target) and Miri. (3) reads stay inside the supplied buffer: tampered and raw inputs for run-time struct declarations are decoded — by deserialize and by a tolerant client that keeps reading fields with the same AdtDeserializer after a field failed — inside two different surroundings (canary bytes 0x53 / 0xAC before and after the slice); the outcomes must be identical (a process killed by an out-of-range access is reported by the supervisor). Non-trivial = witness whose control compiles; input whose count / length differs from what the target expects.",
+        "(1) client programs: witnesses from a template grammar — API path (State::store_ref -> get_ref_by_id, SerializationContext::store_ref_or_object -> get_ref_by_id, store_ref -> DeserializationContext::try_read_ref, read_bytes on SliceInput / OwnedInput / DeserializationContext, a table reference outliving its context) x how the referent dies (inner scope ends, drop, moved into a callee, Vec reallocation / second mutable use) x referent type (String, Vec<u8>, Box<u64>, Rc<String>) — each a crate root with #![forbid(unsafe_code)] compiled by rustc against the freshly built desert rlib; every witness has a control twin that keeps the referent alive and must compile. Oracle: the witness is rejected with a borrow/lifetime error; a witness that compiles refutes the property. (2) inputs to the decoding paths written with unsafe code ([T; N] for T in u8, u32, String, Vec<u16>, Option<Box<u64>>, i8, bool, () and N in 0, 1, 3, 16, 17, 33; Vec<u8> / Vec<T>; Bytes; BigInt): valid, count-mismatched, truncated and tampered encodings; every Ok must equal the reference decoder's value (content that does not come from the input is caught without a sanitizer) and must not change when the allocator pre-fills fresh heap memory with 0x53 / 0xAC (uninitialised memory reaching a result is caught without Miri); the thorough tier repeats this corpus under AddressSanitizer (libFuzzer target) and Miri. (3) reads stay inside the supplied buffer: tampered and raw inputs for run-time struct declarations are decoded — by deserialize and by a tolerant client that keeps reading fields with the same AdtDeserializer after a field failed — inside two different surroundings (canary bytes 0x53 / 0xAC before and after the slice); the outcomes must be identical (a process killed by an out-of-range access is reported by the supervisor). Non-trivial = witness whose control compiles; input whose count / length differs from what the target expects.",
     );
     r.lines = lines.into_inner().unwrap();
     r.assumptions = vec![
